@@ -69,7 +69,10 @@ def _decode(assumed: dict, rule: str):
         elif kind == "startswith":
             facts[f"startswith:{k[2]}"] = v
         elif kind == "in":
-            facts[f"in:{k[1]}"] = v
+            if isinstance(k[1], int) and len(k) > 2:
+                facts[f"memberof:{k[2]}"] = v   # <abstract text> in (<literals>): the same fact as a chain of == tests
+            else:
+                facts[f"in:{k[1]}"] = v
         elif kind == "eq":
             facts[f"eq:{k[-1]}"] = v
         elif kind == "truth":
@@ -274,7 +277,7 @@ def run(ctx):
                 n_paths += 1
                 f = _decode(assumed, "C19.R2")
                 is_grp = bool(f.get("in:'group'")) or bool(f.get("in:'repeat'"))
-                reserved = bool(f.get("eq:'name'")) or bool(f.get("eq:'label'"))
+                reserved = bool(f.get("eq:'name'")) or bool(f.get("eq:'label'")) or any(v_ for k_, v_ in f.items() if k_.startswith("memberof:") and "'name'" in k_ and "'label'" in k_)
                 prefix = bool(f.get("startswith:'__'"))
                 badtag = f.get("xmltag:SAVETO") is False
                 expect_raise = (decl is None) or is_grp or in_rep or reserved or prefix or badtag
